@@ -180,6 +180,19 @@ CHECKS = {
             "three finer-grid builders are also checked directly on drawn arrays.",
             "Scripts replace the random collaborators on the instances (numpy.random.normal on the module for the "
             "duration of the call); small fixed grids; the coupling kernel itself is C03's subject."),
+    "C16": ("3/C16",
+            "Hypothesis-generated drivers, coefficient functions and levels; the driver path consumed by the scheme "
+            "is captured and the Euler recursion recomputed in the harness; closed forms for constant and diagonal "
+            "coefficients; discount factors on a mesh containing every tenor and its float neighbours",
+            "Exploration: MarkovChainSDE (single process) and CouplingSDE (levels 1-2, both components) over 1-d "
+            "chains of every family and 2-d Clayton copula chains, with Constant (m x d), DiagX and Libor-type "
+            "coefficient functions: the returned path must equal, step by step on the driver's own time grid, "
+            "X_{i+1} = X_i + (b + a(t_i,X_i) mu) dt + a(t_i,X_i)(dW_i + dL_i) with the coefficient re-typed in the "
+            "harness, each component with the drift of its own level; constant a => x0 + a*Y_T, diag(x) => "
+            "x0*prod(1+dY_i); epsilon = h^beta. Rate models: df(0)=1, positive, non-increasing, continuous at tenors "
+            "and equal to simple compounding of the initial curve for 1..6 periods.",
+            "Driver paths are the library's own random paths (numpy seeded per case), captured by a wrapper; the "
+            "correctness of those paths is C15's and C03's subject."),
 }
 
 NOT_YET = "check not built yet in this session; will be claimed when its module exists"
